@@ -7,16 +7,17 @@ Open Scope Z_scope.
    table the loop never runs out of fuel, whatever ComputeLD returns (NaN included) -
    every iteration removes at least the index variant. *)
 Theorem C17_clump_terminates :
-  forall p1 kb pass,
-  (forall iv c, pass iv c <> Err E_Timeout) ->
+  forall (G : Type) p1 kb (load : svar -> res G) pass,
+  (forall iv, load iv <> Err E_Timeout) ->
+  (forall gi iv c, pass gi iv c <> Err E_Timeout) ->
   forall fuel stats, (length stats <= fuel)%nat ->
-  clump_loop fuel p1 kb pass stats <> Err E_Timeout.
-Proof. exact clump_loop_fuel. Qed.
+  clump_loop fuel p1 kb load pass stats <> Err E_Timeout.
+Proof. exact @clump_loop_fuel. Qed.
 Print Assumptions C17_clump_terminates.
 
 Theorem C17_clump_terminates_total :
   forall p1 kb (pb : svar -> svar -> bool) stats,
-  exists cl, clump_loop (length stats) p1 kb (fun iv c => Ok (pb iv c)) stats = Ok cl.
+  exists cl, clump_loop_total (length stats) p1 kb pb stats = Ok cl.
 Proof. exact clump_terminates_total. Qed.
 Print Assumptions C17_clump_terminates_total.
 
@@ -27,14 +28,14 @@ Print Assumptions C17_clump_terminates_total.
    eligible variant is left. *)
 Theorem C17_clump_is_greedy :
   forall p1 kb pb fuel stats cl,
-  clump_loop fuel p1 kb (fun iv c => Ok (pb iv c)) stats = Ok cl -> greedy p1 kb pb stats cl.
+  clump_loop_total fuel p1 kb pb stats = Ok cl -> greedy p1 kb pb stats cl.
 Proof. exact clump_loop_greedy. Qed.
 Print Assumptions C17_clump_is_greedy.
 
 (* No variant ID appears in two clumps (as index or as member). *)
 Theorem C17_clumps_disjoint :
   forall p1 kb pb fuel stats cl,
-  clump_loop fuel p1 kb (fun iv c => Ok (pb iv c)) stats = Ok cl ->
+  clump_loop_total fuel p1 kb pb stats = Ok cl ->
   ForallOrdPairs (fun c1 c2 => forall x, In x (clump_ids c1) -> In x (clump_ids c2) -> False) cl.
 Proof. intros. eapply greedy_disjoint. eapply clump_loop_greedy. eassumption. Qed.
 Print Assumptions C17_clumps_disjoint.
@@ -45,7 +46,7 @@ Example C17_greedy_example :
   let v i p := mksv i 1 (1000 + i) p 0 in
   let st := [v 0 (1#1); v 1 (1#1000); v 2 (0#1); v 3 (1#1000)] in
   option_map (map (fun c : clump => (sv_id (fst c), map sv_id (snd c))))
-    (match clump_loop (length st) (1#100) (1#1) (fun iv c => Ok (negb (sv_id iv =? 2) && (sv_id c <=? sv_id iv))) st
+    (match clump_loop_total (length st) (1#100) (1#1) (fun iv c => negb (sv_id iv =? 2) && (sv_id c <=? sv_id iv)) st
      with Ok cl => Some cl | Err _ => None end)
   = Some [(2, []); (1, [0; 1]); (3, [3])].
 Proof. vm_compute. reflexivity. Qed.
@@ -113,7 +114,7 @@ Print Assumptions C17_greedy_okb_sound.
 Theorem C17_model_meets_checker_spec :
   forall p1 kb pb fuel stats cl,
   NoDup (map sv_id stats) ->
-  clump_loop fuel p1 kb (fun iv c => Ok (pb iv c)) stats = Ok cl ->
+  clump_loop_total fuel p1 kb pb stats = Ok cl ->
   greedy_ids p1 kb pb stats (ids_of cl).
 Proof. intros. apply greedy_to_ids; [assumption|]. eapply clump_loop_greedy. eassumption. Qed.
 Print Assumptions C17_model_meets_checker_spec.
